@@ -591,3 +591,94 @@ Definition complete (g : gst) (ths : list (list op)) : Prop :=
 Definition conc_obs (g : gst) : list (list (list (list N))) := map th_obs (g_thr g).
 Definition conc_final_obs (g : gst) (U : univ) : list (list N) :=
   map (fun p => sort (subscribers (fst p) (snd p) (fst (run_c unwrap c_init (g_hist g))))) U.
+
+(* ================================================================================================
+   The OTHER operations of the communication layer (comm/communication.go: Broadcast, CloseSession;
+   comm/health.go: ExecuteCommHealthCheck; comm/p2p/libp2p.go: StreamHandlerFunc on a stream that
+   carries no message).  As coded:
+     CloseSession(s)   c.streamManager.ReleaseStreams(s): closes and forgets the OUTBOUND streams of
+                       the session - the subscription table is not touched
+     Broadcast(..)     marshals, opens / reuses outbound streams, writes - reads nothing of the table
+     health check      Broadcast of an Unknown-type message to every peer, then CloseSession
+     stream handler    ProcessMessagesFromStream returns at the first read / decode error
+   The property's frame condition: who is subscribed is changed by subscribe and cancel ONLY.  Both
+   the model of the code and the specification step over these operations without changing their
+   state; the runner still looks at the table (and, in the interleaved scripts, keeps sending
+   messages) after each of them.
+   ================================================================================================ *)
+
+Inductive other :=
+| OClose (s : string)                          (* CloseSession(s) *)
+| OBcast (s : string) (t : N) (to : list N)    (* Broadcast(to, payload, t, s); to = peer numbers *)
+| OHealth (to : list N)                        (* comm.ExecuteCommHealthCheck(communication, to) *)
+| OHandler (data : string).                    (* StreamHandlerFunc on an inbound stream with these bytes (no complete message) *)
+
+Inductive xop :=
+| XOp (o : op)
+| XOther (k : other).
+
+Definition xops_of (xs : list xop) : list op :=
+  flat_map (fun x => match x with XOp o => [o] | XOther _ => [] end) xs.
+
+Definition step_xc (uw : string -> option (string * N * string)) (st : cstate) (x : xop) : cstate :=
+  match x with XOp o => step_c uw st o | XOther _ => st end.
+Definition step_xa (st : astate) (x : xop) : astate :=
+  match x with XOp o => step_a st o | XOther _ => st end.
+
+Definition run_xc (uw : string -> option (string * N * string)) (st : cstate) (xs : list xop) : cstate :=
+  fold_left (step_xc uw) xs st.
+Definition run_xa (st : astate) (xs : list xop) : astate := fold_left step_xa xs st.
+
+(* what is observed after every operation, the other ones included: the subscriber lists of the
+   universe (and the receipts of a delivery) *)
+Fixpoint xtrace_c (uw : string -> option (string * N * string)) (U : univ) (st : cstate) (xs : list xop) : list obs :=
+  match xs with
+  | [] => []
+  | x :: r =>
+      let st' := step_xc uw st x in
+      mk_obs (match x with XOp o => id_of_op o | XOther _ => EmptyString end) (view_c U (fst st'))
+             (match x with XOp (Deliver s t) => sort (subscribers s t (fst st')) | _ => [] end)
+      :: xtrace_c uw U st' r
+  end.
+
+Fixpoint xtrace_a (U : univ) (st : astate) (xs : list xop) : list (list (list N) * list N) :=
+  match xs with
+  | [] => []
+  | x :: r =>
+      let st' := step_xa st x in
+      (view_a U (fst st'),
+       match x with XOp (Deliver s t) => sort (spec_subscribers s t (fst st')) | _ => [] end)
+      :: xtrace_a U st' r
+  end.
+
+Definition judge_xops (U : univ) (xs : list xop) (impl : list obs) : bool :=
+  trace_ok (xtrace_a U a_init xs) impl.
+
+(* interleaved scripts with other operations between the messages of the streams *)
+Inductive xfev :=
+| XEv (e : fev)
+| XOth (k : other).
+
+Definition xfevs_of (xs : list xfev) : list fev :=
+  flat_map (fun x => match x with XEv e => [e] | XOth _ => [] end) xs.
+
+Section FanIX.
+  Context {X : Type}.
+  Variable stepX : X -> op -> X.
+  Variable subsX : X -> string -> N -> list N.
+  Fixpoint recvix_of (st : X) (xs : list xfev) (c : N) : list msg :=
+    match xs with
+    | [] => []
+    | XEv (FOp o) :: r => recvix_of (stepX st o) r c
+    | XEv (FMsg m) :: r => repeat m (copies c (subsX st (m_sess m) (m_type m))) ++ recvix_of st r c
+    | XOth _ :: r => recvix_of st r c
+    end.
+End FanIX.
+
+Definition recvix_c : cstate -> list xfev -> N -> list msg :=
+  recvix_of (step_c unwrap) (fun st s t => subscribers s t (fst st)).
+Definition recvix_a : astate -> list xfev -> N -> list msg :=
+  recvix_of step_a (fun st s t => spec_subscribers s t (fst st)).
+
+Definition judge_fanix (xs : list xfev) (chans : list N) (impl : list (list msg)) : bool :=
+  fan_ok (recvix_a a_init xs) chans impl.
